@@ -139,13 +139,21 @@ func verif_C16_envelope() {
 	}
 	lmtp := nondetBool()
 	script += "354 go\r\n"
+	// final verdicts: one per recipient in LMTP (each arbitrary), one in SMTP
+	refused := false
 	if lmtp {
 		for i := 0; i < n; i++ {
-			script += "250 2.0.0 ok\r\n"
+			if nondetBool() {
+				script += "250 2.0.0 ok\r\n"
+			} else {
+				script += "554 5.3.0 <" + list[i] + "> refused\r\n"
+				refused = true
+			}
 		}
 	} else {
 		script += "250 2.0.0 ok\r\n"
 	}
+	script += "250 2.0.0 noop\r\n"
 	c, vc := verifClient(script, nil)
 	c.lmtp = lmtp
 	verifAssert(c.Mail("s@v", nil) == nil, "C16.env-mail-accepted")
@@ -159,7 +167,8 @@ func verif_C16_envelope() {
 	var cb []string
 	var w io.WriteCloser
 	var err error
-	if lmtp {
+	withCb := lmtp && nondetBool()
+	if withCb {
 		w, err = c.LMTPData(func(rcpt string, st *SMTPError) { cb = append(cb, rcpt) })
 	} else {
 		w, err = c.Data()
@@ -169,8 +178,14 @@ func verif_C16_envelope() {
 		return
 	}
 	w.Write([]byte("x\r\n"))
-	verifAssert(w.Close() == nil, "C16.env-close")
-	if lmtp {
+	cerr := w.Close()
+	verifAssert((cerr == nil) == (withCb || !refused), "C16.env-close")
+	// the transaction has consumed exactly its own replies: the next command
+	// reads its own
+	wire := len(vc.out)
+	verifAssert(c.Noop() == nil && vc.pos == len(vc.in), "C16.env-next-command-reads-its-own-reply")
+	vc.out = vc.out[:wire]
+	if withCb {
 		ok := len(cb) == n
 		for i := 0; ok && i < n; i++ {
 			ok = cb[i] == list[i]
